@@ -31,7 +31,8 @@ def build(seq, epg):
         elif o[0] == "Snd":
             ops.append(epg.S(np.asarray(o[1], dtype=int)))
         elif o[0] == "Sf":
-            ops.append(epg.S(np.asarray(o[1], dtype=float), **({"kgrid": o[2]} if len(o) > 2 else {})))
+            # prune=0 on the operator as well: `sm.options.get("prune") or self.prune` falls back to the operator's 1e-8
+            ops.append(epg.S(np.asarray(o[1], dtype=float), prune=0, **({"kgrid": o[2]} if len(o) > 2 else {})))
         elif o[0] == "ADC":
             ops.append(epg.ADC)
         elif o[0] == "ADCZ":
